@@ -200,6 +200,37 @@ pub fn run(reg: &[Box<dyn TypeOps>], cfg: &Cfg, out: &mut dyn Write) {
             // specification of the sent sequence, for the delivery oracle of the R / AR lines of this block
             let want: Vec<String> = inits.iter().zip(&sizes).map(|(d, z)| format!("msg:{}:{}", z, render_init(&sh, d).replace(' ', "_"))).collect();
             writeln!(out, "W {} {} {} => {}", tid, max, hex(&stream), want.join(",")).unwrap();
+            // ---- the same messages as a peer with a different encoder might send them: a FlexVec whose last item carries its real
+            // offset and is followed by a terminating zero slot (a valid encoding that this library's sender never produces)
+            if let Shape::Flex(_, l) = &sh {
+                let os = sh.data_offset();
+                let al = sh.align();
+                let mut fstream = vec![];
+                let mut fsizes = vec![];
+                let mut p = 0usize;
+                let mut changed = false;
+                for z in &sizes {
+                    let image = &stream[p..p + z];
+                    p += z;
+                    let slack = al * (rng.below(2) as usize);
+                    let mut padded = image.to_vec();
+                    padded.extend(std::iter::repeat(0xAAu8).take(os + slack));
+                    match terminate_chain(&padded, l, os, slack, padded.len(), *z) {
+                        Some(m) if m.len() <= max => { fsizes.push(m.len()); fstream.extend(m); changed = true; }
+                        _ => { fsizes.push(*z); fstream.extend_from_slice(image); }
+                    }
+                }
+                if changed {
+                    recv_line(&[], &fstream, nrecv, out);
+                    for _ in 0..(if cfg.thorough { 6 } else { 2 }) {
+                        let c = composition(&mut rng, fstream.len(), 11);
+                        let c = if is_async { with_pendings(&mut rng, &c, 3) } else { c };
+                        recv_line(&c, &fstream, nrecv, out);
+                    }
+                    let want: Vec<String> = inits.iter().zip(&fsizes).map(|(d, z)| format!("msg:{}:{}", z, render_init(&sh, d).replace(' ', "_"))).collect();
+                    writeln!(out, "W {} {} {} => {}", tid, max, hex(&fstream), want.join(",")).unwrap();
+                }
+            }
         }
     }
 }
